@@ -65,6 +65,7 @@ pub fn run_scenario(sc: &J, out: &mut Vec<J>) {
         c.random_timing = t.get("random").and_then(|x| x.as_bool()).unwrap_or(false);
         c.rng = ju(sc, "seed", 1);
         c.budget = ju(sc, "budget", 3_000_000);
+        c.oor_quirk = sc.get("oor").and_then(|x| x.as_bool()).unwrap_or(false);
         if let Some(ms) = sc.get("misb").and_then(|x| x.as_array()) {
             for m in ms {
                 c.misb.push(Misb { when: m["when"].as_str().unwrap().to_string(), nth: ju(m, "nth", 1), what: m["what"].as_str().unwrap().to_string(),
@@ -74,8 +75,8 @@ pub fn run_scenario(sc: &J, out: &mut Vec<J>) {
     }
     let delays = Rc::new(RefCell::new(0u64));
     let opts = AcquireOpts { use_crc: crc, acquire_retries: ju(sc, "retries", 50) as u32 };
-    let sd = SdCard::new_with_options(SimSpi(card.clone()), SimDelay(delays.clone()), opts);
-    out.push(json!({"ev": "Reset", "id": sc["id"], "kind": sc["kind"], "crc": crc, "csd": {"ver": ver, "c_size": c_size, "mult": mult, "bl": bl, "erase": erase}, "weird": weird,
+    let mut sd = SdCard::new_with_options(SimSpi(card.clone()), SimDelay(delays.clone()), opts);
+    out.push(json!({"ev": "Reset", "id": sc["id"], "kind": sc["kind"], "crc": crc, "csd": {"ver": ver, "c_size": c_size, "mult": mult, "bl": bl, "erase": erase}, "weird": weird, "oor": sc.get("oor").and_then(|x| x.as_bool()).unwrap_or(false),
         "cap": [cap_real >> 16, cap_real & 0xFFFF], "caprem": cap_rem, "nblocks": nblocks, "acmd41": card.borrow().acmd41_need,
         "budget": [card.borrow().budget >> 16, card.borrow().budget & 0xFFFF]}));
     let seed = ju(sc, "seed", 1);
@@ -102,6 +103,17 @@ pub fn run_scenario(sc: &J, out: &mut Vec<J>) {
                 c.busy_pending = 0;
                 c.outq.clear();
                 out.push(json!({"ev": "Ctl", "what": "revive", "val": 0}));
+                continue;
+            }
+            "takeover" => {
+                // another driver object takes the initialised card over (mark_card_as_init): nothing happens on the bus, the
+                // card is what it was; every property of the calls that follow is the same as for the object that initialised it
+                if let Some(ct) = sd.get_card_type() {
+                    let opts2 = AcquireOpts { use_crc: crc, acquire_retries: ju(sc, "retries", 50) as u32 };
+                    let nsd = SdCard::new_with_options(SimSpi(card.clone()), SimDelay(delays.clone()), opts2);
+                    unsafe { nsd.mark_card_as_init(ct) };
+                    sd = nsd;
+                }
                 continue;
             }
             "spierr" => {
